@@ -271,6 +271,8 @@ pub fn e1_spec(id: &str, tier: &str) -> Option<Spec> {
                     v.push(progs::nested3(k));
                     v.push(progs::cond_cycle(k));
                 }
+                v.push(progs::head_flag_cycle(ql::ex::Kind::Fx));
+                v.push(progs::head_flag_cycle(ql::ex::Kind::Fxj));
                 v
             },
             depth: if quick { 2 } else { 3 },
@@ -350,8 +352,21 @@ pub fn e1_spec(id: &str, tier: &str) -> Option<Spec> {
         }
         "C15" => Some(Spec {
             id: "C15",
-            programs: progs::nonconv_set(),
-            depth: if quick { 4 } else { 5 },
+            programs: {
+                // the two systems with a plain dependent of the head are also explored one
+                // operation deeper (converge, memoize the dependent, diverge, converge again and
+                // enter through the dependent)
+                let mut v = progs::nonconv_set();
+                for name in ["nc-cond-diverges", "nc-succ-self"] {
+                    if let Some(p) = v.iter().find(|p| p.name == name).cloned() {
+                        let mut p = p;
+                        p.name = format!("deep-{}", p.name);
+                        v.push(p);
+                    }
+                }
+                v
+            },
+            depth: if quick { 5 } else { 6 },
             alphabet: Box::new(progs::nonconv_alphabet),
             flags: Flags { values: true, iter_bound: true, ..Flags::default() },
             rule: RULE_E1,
